@@ -1,0 +1,14 @@
+//go:build verif
+
+package kvstore
+
+// VerifEnqueueYield, if set, is called by BatchedWriter.Enqueue after the object has passed all checks and
+// right before it is handed to the writer. It lets the verification machinery in /verif replay schedules in which
+// StopBatchWriter runs inside that window. Only compiled with the "verif" build tag.
+var VerifEnqueueYield func()
+
+func verifEnqueueYield() {
+	if f := VerifEnqueueYield; f != nil {
+		f()
+	}
+}
